@@ -115,6 +115,7 @@ Definition as_op (t : tree) : option op :=
   | TL [TI 7; l] => match as_nat l with Some l' => Some (OQuery l') | None => None end
   | TL [TI 8] => Some OEnterHC
   | TL [TI 9] => Some OExitHC
+  | TL [TI 11; i; r] => match as_nat i, as_raw r with Some i', Some r' => Some (OSetOrigin i' r') | _, _ => None end
   | _ => None
   end.
 
